@@ -23,8 +23,9 @@ from stepup.core.nglob import NamedGlob
 from stepup.core.static_tree import StaticTree
 from stepup.core.step import Step
 
-PATHS = ["a.txt", "b.txt", "d/c.txt", "d/e.txt", "d/sub/g.txt", "d2/f.txt", "out/x", "out/y", "o.bin", "d/o2"]
-DIRS = ["d", "d/sub", "d2", "out", "d/"]
+PATHS = ["a.txt", "b.txt", "d/c.txt", "d/e.txt", "d/sub/g.txt", "d2/f.txt", "out/x", "out/y", "o.bin", "d/o2",
+         "a_b/f.txt", "axb/f.txt"]
+DIRS = ["d", "d/sub", "d2", "out", "d/", "a_b", "axb"]
 CMDS = ["s1", "s2", "s3", "s4", "s5", "s6", "s7", "s8", "s9"]
 WORKDIRS = [".", ".", ".", "w/"]
 ENVS = ["V1", "V2"]
@@ -453,6 +454,99 @@ class KernelRun:
         for _ in range(r.randint(0, 2)):
             await self.pop()
 
+    async def rerole(self):
+        """A built output is detached (its producer's creator runs again) and the path is then declared
+        in another role (volatile by another step, or static): the recycled file row must take the
+        role of the new declaration."""
+        r, wf = self.r, self.wf
+        running = await self.q(lambda: self.steps(StepState.RUNNING))
+        if "./plan.py" not in running:
+            return
+        x = r.choice(PATHS)
+        if not (await self.define_explicit("./plan.py", "mk", [], [x], Need.DEFAULT)).startswith("ok"):
+            return
+        if not await self.pop_until("mk", limit=3):
+            return
+        await self.complete_ok("mk")
+        await self.step_op("reset_rerun", "./plan.py", fn=lambda: wf.find(Step, "./plan.py").reset_for_rerun())
+        k = r.random()
+        if k < 0.6:
+            cmd = r.choice(["mk", "other"])
+            self.decls[cmd] = (cmd, ".", (), (), (), (x,), Need.DEFAULT, False, {}, {})
+
+            def fn():
+                return wf.define_step(wf.find(Step, "./plan.py"), cmd, inp_paths=[], env_deps=[], out_paths=[],
+                                      vol_paths=[x], workdir=".", need=Need.DEFAULT, resources=None, shell=False,
+                                      env_overrides=None, _safe=False)
+
+            await self.tx(f"k define {kkey('step', './plan.py')} {hexs(cmd)} {hexs('.')} . . . {hexlist([x])} DEFAULT 0 0 . .",
+                          fn, lambda v: hexlist(sorted(v)))
+        else:
+            await self.tx(f"k static {kkey('step', './plan.py')} {hexlist([x])}",
+                          lambda: wf.declare_static_files(wf.find(Step, "./plan.py"), [x]), lambda v: hexlist(sorted(v)))
+
+    async def amended_consumer_rerun(self):
+        """An OPTIONAL step is needed only through an amended input of `use`; `use` then runs again
+        without amending (witness of the repaired defect F20)."""
+        r, wf = self.r, self.wf
+        running = await self.q(lambda: self.steps(StepState.RUNNING))
+        if "./plan.py" not in running:
+            return
+        src, f, res = r.sample(PATHS, 3)
+        ans = await self.tx(f"k static {kkey('step', './plan.py')} {hexlist([src])}",
+                            lambda: wf.declare_static_files(wf.find(Step, "./plan.py"), [src]),
+                            lambda v: hexlist(sorted(v)))
+        if not ans.startswith("ok"):
+            return
+        await self.hashes(HashUpdateCause.CONFIRMED, [src], 1.0)
+        for args in (("gen", [src], [f], Need.OPTIONAL), ("use", [], [res], Need.DEFAULT)):
+            if not (await self.define_explicit("./plan.py", *args)).startswith("ok"):
+                return
+        await self.complete_ok("./plan.py")
+        if not await self.pop_until("use", limit=3):
+            return
+
+        def fn():
+            return wf.amend_step(wf.find(Step, "use"), inp_paths=[f], ran_concurrently=lambda p, c: False)
+
+        def res_(v):
+            un, uf, chk = v
+            return f"{hexlist(sorted(str(x) for x in un))}|{hexlist(sorted(str(x) for x in uf))}|{hexlist(sorted(chk))}"
+
+        await self.tx(f"k amend {kkey('step', 'use')} {hexlist([f])} . . . .", fn, res_)
+        await self.step_op("completed", "use", "~", 1, fn=lambda: wf.find(Step, "use").mark_completed(None, True),
+                           result=lambda v: kdump.b01(v))
+        if await self.pop_until("gen", limit=3):
+            await self.complete_ok("gen")
+        if await self.pop_until("use", limit=3):
+            await self.step_op("reset_rerun", "use", fn=lambda: wf.find(Step, "use").reset_for_rerun())
+            await self.complete_ok("use")
+        await self.hashes(HashUpdateCause.EXTERNAL, [src], 1.0)
+        for _ in range(r.randint(1, 3)):
+            await self.pop()
+
+    async def hold_recycle(self):
+        """A step that never ran is detached because its creator runs again; the creator opens a hold
+        block and declares the step again unchanged (full recycle): it must not be dispatched to
+        run before the hold is released."""
+        r, wf = self.r, self.wf
+        running = await self.q(lambda: self.steps(StepState.RUNNING))
+        if "./plan.py" not in running:
+            return
+        out = r.choice(PATHS)
+        if not (await self.define_explicit("./plan.py", "held", [], [out], Need.DEFAULT)).startswith("ok"):
+            return
+        await self.step_op("reset_rerun", "./plan.py", fn=lambda: wf.find(Step, "./plan.py").reset_for_rerun())
+        await self.pop()
+        await self.step_op("hold", "./plan.py", fn=lambda: wf.find(Step, "./plan.py").hold())
+        await self.pop()
+        await self.define_explicit("./plan.py", "held", [], [out], Need.DEFAULT)
+        for _ in range(r.randint(1, 3)):
+            await self.pop()
+        if r.random() < 0.5:
+            await self.step_op("release", "./plan.py", fn=lambda: wf.find(Step, "./plan.py").release())
+            await self.pop()
+
     async def deferred_wakeup(self):
         """A consumer amends an input that is OUTDATED (its producer has to run again) and is
         deferred; the producer then rewrites the same content (no hash update: `mark_completed`
@@ -580,7 +674,7 @@ class KernelRun:
         if not running:
             return
         creator = r.choice(running)
-        trees = sorted(r.sample(DIRS[:4], r.choice([0, 0, 1, 2])))
+        trees = sorted(r.sample(DIRS[:4] + DIRS[5:], r.choice([0, 0, 1, 2])))
         files = self.pick_paths((0, 1, 2, 3))
         pats = []
         for pattern in r.sample(PATTERNS, r.choice([0, 1, 1, 2])):
@@ -931,6 +1025,12 @@ class KernelRun:
                 await self.resource_race()
             elif k < 0.46:
                 await self.detached_completion()
+            elif k < 0.52:
+                await self.rerole()
+            elif k < 0.58:
+                await self.amended_consumer_rerun()
+            elif k < 0.64:
+                await self.hold_recycle()
         menu = [(self.define, 20), (self.static, 8), (self.declstatic, 5), (self.tree, 4), (self.nglob, 4),
                 (self.amend, 8), (self.recycle_under_glob, 3),
                 (self.confirm, 12), (self.external, 6), (self.pop, 18), (self.run_step, 18),
